@@ -116,6 +116,11 @@ func verifSetupPass(o verifPassOpts) *verifPass {
 				} else {
 					t.Ref.Status.Result = execution.TaskFailed
 				}
+			} else if o.taskMayLoseRunning && t.Ref.RunningTimestamp != nil && vz.Bool("task.unfinishedLostRunningTime") {
+				// a live task that was seen running reports no container state for now (node unreachable)
+				t.Ref.RunningTimestamp = nil
+				t.Ref.Status.State = execution.TaskStarting
+				vz.Cover("live-task-lost-its-running-time")
 			}
 		}
 		if o.taskDeleting && vz.Bool("task.deleting") {
@@ -226,6 +231,17 @@ func verifSetupPass(o verifPassOpts) *verifPass {
 func (p *verifPass) run() error {
 	out, err := p.r.sync(context.Background(), p.j.rj, p.cfg, utiltrace.New("verif"))
 	p.out = out
+	if out != nil && p.j.started && !p.j.deleted {
+		// C11: the task counters equal what the task list shows
+		running := int64(0)
+		for _, ref := range out.Status.Tasks {
+			if !ref.RunningTimestamp.IsZero() && ref.FinishTimestamp.IsZero() {
+				running++
+			}
+		}
+		vz.Assert(out.Status.CreatedTasks == int64(len(out.Status.Tasks)), "C11/counters/created-tasks-equals-the-list")
+		vz.Assert(out.Status.RunningTasks == running, "C11/counters/running-tasks-equals-the-list")
+	}
 	return err
 }
 
